@@ -124,12 +124,36 @@ let router_case (toks : string list) : string =
     Buffer.contents b
   | _ -> "BADCASE"
 
+(* ---------------- queue (C13) ---------------- *)
+
+let queue_case (toks : string list) : string =
+  match toks with
+  | [ "K"; pushes; "S"; sched ] ->
+    let pushes = List.map int_of_string (List.filter (fun x -> x <> "") (String.split_on_char ',' pushes)) in
+    let progs = List.mapi (fun i n -> List.init n (fun j -> n_of_int ((i + 1) * 100 + j))) pushes in
+    let np = List.length pushes in
+    let acts = ref [] in
+    String.iter (fun c -> let a = Char.code c - 48 in
+                  if a = 0 then acts := M.Consumer :: !acts
+                  else if a >= 1 && a <= np then acts := M.Producer (nat_of_int (a - 1)) :: !acts) sched;
+    let tail = ref [] in
+    List.iteri (fun i n -> for _ = 1 to 3 * n + 2 do tail := M.Producer (nat_of_int i) :: !tail done) pushes;
+    let total = List.fold_left ( + ) 0 pushes in
+    for _ = 1 to 3 * (total + 3) do tail := M.Consumer :: !tail done;
+    let st = M.run0 (List.rev !acts @ List.rev !tail) (M.init progs) in
+    let outs = List.map (fun v -> string_of_int (int_of_n v)) st.M.out in
+    let left = List.length st.M.items - int_of_nat st.M.popped in
+    Printf.sprintf "out=%s left=%d parked=%d pending=%d" (if outs = [] then "-" else String.concat "," outs) left
+      (match st.M.cst with M.COut -> 1 | _ -> 0) (if int_of_nat st.M.ev > 0 then 1 else 0)
+  | _ -> "BADCASE"
+
 let () =
   let area = Sys.argv.(1) in
   let f = match area with
     | "base64" -> base64_case
     | "parser" -> parser_case
     | "router" -> router_case
+    | "queue" -> queue_case
     | _ -> failwith ("unknown area " ^ area) in
   try
     while true do
